@@ -679,7 +679,7 @@ class DeferredWorker(threading.Thread):
 
   def call_decorated(self, name, got, want, scope):
     """calls the function `name` was decorated into; appends what its body (and the functions the body calls) observe"""
-    ent = self.shared.get('fn:' + name)
+    ent = self.shared.get('fn:' + name) if isinstance(name, str) else name
     if ent is None:
       return
     fn, a, inner = ent
@@ -737,13 +737,14 @@ class DeferredWorker(threading.Thread):
       return [self.see(), self.want(self.ref[-1])]
     if k == 'observe':
       return [self.see(), self.want(self.ref[-1])]
-    if k == 'defdec':                            # @gin.config_scope(arg) \n def <name>(): observe; <inner>(); observe
+    if k == 'defdec':                            # @gin.config_scope(arg) def <name>(): observe; <inner>(); observe
       deco = gin.config_scope(self.arg(st[1]))
 
       @deco
       def fn(body):
         return body()
-      self.shared['fn:' + st[2]] = (fn, st[1], st[3])
+      # the function the body calls is the one that name denotes NOW (no recursion)
+      self.shared['fn:' + st[2]] = (fn, st[1], self.shared.get('fn:' + st[3]) if st[3] else None)
       return None
     if k == 'calldec':                           # <name>()  -- k times in a row: the decorator enters the scope per call
       got, want = [], []
@@ -864,13 +865,18 @@ class DeferredEngine(Engine):
     return {}
 
   def gen_thread(self, rng, n, names):
-    steps, depth, fns = [], 0, []
+    steps, depth, made, fns = [], 0, [], []
+    # mostly enter / call what this thread built (the rest: what the other thread built, or nothing -> the step is skipped)
+    pick = lambda own: rng.choice(own) if own and rng.random() < 0.75 else rng.choice(names)
     for _ in range(n):
       r = rng.random()
       if r < 0.2:
         steps.append(['make', self.gen_arg(rng), rng.choice(names)])
+        made.append(steps[-1][2])
       elif r < 0.4 and depth < 5:
-        steps.append(['enter', rng.choice(names)])
+        steps.append(['enter', pick(made)])
+        if steps[-1][1] in made:
+          made.remove(steps[-1][1])
         depth += 1
       elif r < 0.5 and depth < 5:
         steps.append(['with', self.gen_arg(rng)])
@@ -879,9 +885,10 @@ class DeferredEngine(Engine):
         steps.append(['exit', rng.random() < 0.3])
         depth -= 1
       elif r < 0.7:
-        steps.append(['defdec', self.gen_arg(rng), rng.choice(names), rng.choice(names) if rng.random() < 0.4 else None])
+        steps.append(['defdec', self.gen_arg(rng), rng.choice(names), pick(fns) if rng.random() < 0.4 else None])
+        fns.append(steps[-1][2])
       elif r < 0.82:
-        steps.append(['calldec', rng.choice(names), rng.randint(1, 2)])
+        steps.append(['calldec', pick(fns), rng.randint(1, 2)])
       elif r < 0.9:
         steps.append(['stack', [self.gen_arg(rng, invalid=rng.random() < 0.3) for _ in range(rng.randint(1, 4))], rng.random() < 0.3])
       else:
